@@ -38,6 +38,7 @@ package sweep
 import (
 	"errors"
 	"fmt"
+	"os"
 	"sort"
 	"sync"
 	"testing"
@@ -2426,6 +2427,9 @@ func (g *verifC18RG) observe(resp *bumpResp) {
 		}
 	}
 	g.evlog = append(g.evlog, ev)
+	if g.life != nil && verifC18LifeDebug {
+		fmt.Fprintf(os.Stderr, "  result %+v\n", ev)
+	}
 }
 
 // judgeGaveUp: "reaches its ceiling (the lesser of budget-over-size and the
